@@ -9,6 +9,7 @@ case "$OUT" in /*) ;; *) OUT="$PWD/$OUT";; esac
 mkdir -p "$(dirname "$OUT")"
 CACHE="$VERIF/.cache"; TGT="${ZF_TARGET_DIR:-$CACHE/target}"
 DRV="$VERIF/extractor/target/release/zfacts"
+if [ -n "${ZF_TARGET_DIR:-}" ]; then LOCK="$TGT.lock"; else LOCK="$CACHE/lock"; fi
 [ -x "$DRV" ] || { echo "ANALYSIS-ERROR: extractor not built (run setup)" >&2; exit 2; }
 mkdir -p "$CACHE" "$TGT"
 SYSROOT="$(rustc +nightly --print sysroot)"
@@ -21,7 +22,7 @@ LOG="$OUT.log"
   cd "$DIR" && ZF_OUT="$OUT" ZF_CRATE="${CRATE//-/_}" ZF_NONCE="$NONCE" LD_LIBRARY_PATH="$SYSROOT/lib" CARGO_INCREMENTAL=0 \
     RUSTC_WRAPPER="$VERIF/tools/rustc_shim.sh" RUSTC_WORKSPACE_WRAPPER="$DRV" CARGO_NET_OFFLINE=true \
     RUSTFLAGS="-Awarnings" CARGO_TARGET_DIR="$TGT" cargo +nightly check --offline --bins "$@" >"$LOG" 2>&1
-) 9>"$CACHE/lock"
+) 9>"$LOCK"
 RC=$?
 if [ $RC -ne 0 ] || [ ! -s "$OUT" ]; then
   echo "ANALYSIS-ERROR: extraction failed (cargo exit $RC); log follows" >&2; tail -40 "$LOG" >&2; exit 2
